@@ -6,7 +6,7 @@ FAULTS = [
     ('drop _nona before as-of reindex', P, "            res = _nona(ts).reindex(index, method = methods[0], limit = limit)", "            res = ts.reindex(index, method = methods[0], limit = limit)", 'C03.2'),
     ('array keeps head', P, "                res = ts[-index:]", "                res = ts[:index]", 'C03.3'),
     ('array pads at the end', P, "                res = np.concatenate([np.full(shape, np.nan),ts])", "                res = np.concatenate([ts, np.full(shape, np.nan)])", 'C03.3'),
-    ('non-ts returns None', P, "        else:\n            return ts\n    else:\n        return ts\n\n\n@loop(list, tuple, dict)\ndef _df_recolumn", "        else:\n            return ts\n    else:\n        return None\n\n\n@loop(list, tuple, dict)\ndef _df_recolumn", 'C03.4'),
+    ('non-ts returns None', P, "        else:\n            return ts\n    else:\n        return ts\n    \n\n@loop(list, tuple, dict)\ndef _df_recolumn", "        else:\n            return ts\n    else:\n        return None\n    \n\n@loop(list, tuple, dict)\ndef _df_recolumn", 'C03.4'),
     ('loop rebuilds list always', '_loop', "            res = [self._wrapped(arg[i], tuple(_item_by_i(a,i,n) for a in args), {k: _item_by_i(v,i,n) for k, v in kwargs.items()}) for i in range(n)]                            \n            return type(arg)(res)", "            res = [self._wrapped(arg[i], tuple(_item_by_i(a,i,n) for a in args), {k: _item_by_i(v,i,n) for k, v in kwargs.items()}) for i in range(n)]                            \n            return list(res)", 'C03.5'),
     ('_df_recolumn not lifted over dict', P, "@loop(list, tuple, dict)\ndef _df_recolumn", "@loop(list, tuple)\ndef _df_recolumn", 'C03.6'),
     ('df_sync index from frames only', P, "    index = df_index(listed, join)\n    dfs = df_reindex(dfs, index, method = method)", "    index = df_index(tss, join)\n    dfs = df_reindex(dfs, index, method = method)", 'C03.7'),
